@@ -16,6 +16,7 @@ open STUV
 def encodingVersion : Nat := 1
 def encodingCompressedVersion : Nat := 4
 def maxEncodedLoops : Nat := 10000000
+/-- Go `maxEncodedCells` (package level; used by both `CellUnion.encode` and `decode`) -/
 def maxCells : Nat := 1000000
 
 /-! ### Point -/
@@ -68,8 +69,10 @@ def decodeCell : Dec UInt64 := decodeCellID
 
 /-! ### CellUnion -/
 
-def encodeCellUnion (cu : List UInt64) : Bytes :=
-  writeInt8 encodingVersion ++ writeInt64OfNat cu.length ++ (cu.map encodeCellID).flatten
+/-- `CellUnion.encode`; `none` where Go sets `e.err` (more than `maxEncodedCells` cells; nothing is written) -/
+def encodeCellUnion (cu : List UInt64) : Option Bytes :=
+  if cu.length > maxCells then none
+  else some (writeInt8 encodingVersion ++ writeInt64OfNat cu.length ++ (cu.map encodeCellID).flatten)
 
 def readN (rd : Dec α) : Nat → Dec (List α)
   | 0 => pure []
